@@ -36,9 +36,10 @@ def run(chk):
     def deeper(c, tb):
         if "n" not in memo: memo["n"] = _deeper(c, tb)
         return memo["n"]
-    stats.append(vcheck.corr_pass(chk, "h256", vcheck.corpus_lines("C13"), "runtype-pairs(corpus)", engine="js", oracle_filter=c13_only, nontrivial=differs, search=deeper))
+    km = vcheck.known_by_hyp(chk, {"NoNewBinderOnCycle": "D101b"})
+    stats.append(vcheck.corr_pass(chk, "h256", vcheck.corpus_lines("C13"), "runtype-pairs(corpus)", engine="js", oracle_filter=c13_only, nontrivial=differs, search=deeper, known_matcher=km))
     lines = chk.gen_js("h256", chk.seed, 1500 if quick else 40000)
-    stats.append(vcheck.corr_pass(chk, "h256", lines, "runtype-pairs", engine="js", oracle_filter=c13_only, nontrivial=differs, search=deeper))
+    stats.append(vcheck.corr_pass(chk, "h256", lines, "runtype-pairs", engine="js", oracle_filter=c13_only, nontrivial=differs, search=deeper, known_matcher=km))
     if not (ok and aok):
         found = any(not s.endswith("no-failing-input-found") for _, s in chk.violations)
         if not found:
